@@ -162,7 +162,7 @@ func callerFunc(skip int) string {
 	for {
 		fr, more := frs.Next()
 		fn := fr.Function
-		if !strings.Contains(fn, "/verifrt.") {
+		if !strings.Contains(fn, "/verifrt.") && !strings.HasPrefix(fn, "net/http.") {
 			if i := strings.LastIndex(fn, "/"); i >= 0 {
 				fn = fn[i+1:]
 			}
